@@ -77,6 +77,7 @@ def cases(tier, seed):
     for p, nanp in itertools.product(("color", "marker", "linestyle", "row"),
                                      ("none", "point")):
         yield {"mode": "fused", "prop": p, "nan": nanp}
+        yield {"mode": "fused", "prop": p, "nan": nanp, "rev": True}
     # aggregation
     for agg, err, meth, style in itertools.product(
             (True, "named"), (0.5, 0.9, "std", "stderr"), ("median", "mean"),
@@ -357,7 +358,10 @@ def check_fused(case):
     def key(sym):
         return "C18|fused|%s|%s" % (p, sym)
 
-    fig, axs, err = plot(key, ds, "x", "y", **{p: ("d0", "d1")})
+    # (fused in the order the dataset stores the two dimensions, or the other
+    # way round)
+    fused = ("d1", "d0") if case.get("rev") else ("d0", "d1")
+    fig, axs, err = plot(key, ds, "x", "y", **{p: fused})
     if err:
         return fin(case, [err])
     if not ds.identical(before):
@@ -380,6 +384,18 @@ def check_fused(case):
         if not np.array_equal(yd, want, equal_nan=True):
             vio.append((key("points"), "slice %r drawn as %r" % (idx,
                                                                 yd.tolist())))
+        # the name the slice is given: the tuple of its coordinates in the
+        # order the dimensions were fused
+        cv = {"d0": before["d0"].values.tolist()[idx[0]],
+              "d1": before["d1"].values.tolist()[idx[1]]}
+        name = repr(tuple(cv[d_] for d_ in fused))
+        if p == "row":
+            shown = " ".join(t.get_text() for t in axs[ij].texts)
+        else:
+            shown = str(l.get_label())
+        if name not in shown:
+            vio.append((key("label"), "slice %r (fused coordinate %s) is "
+                        "labelled %r" % (idx, name, shown)))
     if len(idxs) != len(lines) or len(stys) != len(lines):
         vio.append((key("distinct"), "fused coordinates are not drawn once "
                     "each with distinct %s" % p))
